@@ -33,7 +33,7 @@ def cases(tier, seed):
                             "form": ["frame", "iter", "dict"][h % 3], "open": ["uri", "handle"][h % 2],
                             "ordered": h % 4 != 2, "mergebuf": rng.choice([1, 3, 10 ** 6]),
                             # every 5th: float64 counts asked for through dtypes= (values are multiples of 1/4)
-                            **({"scale": 4} if h % 5 == 1 else {})}
+                            **({"scale": 4} if h % 5 == 1 else {}), "labels": ["default", "perm", "offset"][h % 3]}
 
 
 def run(tier, seed, only_case=None):
